@@ -116,10 +116,39 @@ class C12(RS.StepProp):
             for exp in EXPS:
                 out.append(dict(d, exp=exp))
         self.prefetch_hash(dets)
+        for _ in range(max(4, n // 12)):
+            out.append(self.rand_sort_case(rng))
         alphabet = '{}{}{}ab#=[$],.\n'
         for _ in range(n_blocks):
             out.append({'kind': 'blocks', 's': ''.join(rng.choice(alphabet) for _ in range(rng.randint(0, 14)))})
         return out
+
+    @staticmethod
+    def rand_sort_case(rng):
+        """a graph for a direct call of sort_nodes_by_attr: shuffled keys, one- or two-element fragids,
+        node references in 'ez_isomer_atoms' (tuple / list / single key / dangling key)"""
+        import networkx as nx
+        n = rng.randint(1, 7)
+        keys = rng.sample(range(0, 20), n)
+        G = nx.Graph()
+        for k in keys:
+            fid = [rng.randint(0, 3)] + ([rng.randint(0, 3)] if rng.random() < 0.2 else [])
+            G.add_node(k, fragid=fid, element=rng.choice('CHO'))
+        for _ in range(rng.randint(0, 2 * n)):
+            u, v = rng.choice(keys), rng.choice(keys)
+            if u != v:
+                G.add_edge(u, v, order=rng.choice([1, 2]))
+        for k in keys:
+            r = rng.random()
+            if r < 0.25:
+                G.nodes[k]['ez_isomer_atoms'] = (rng.choice(keys), rng.choice(keys))
+            elif r < 0.32:
+                G.nodes[k]['ez_isomer_atoms'] = [rng.choice(keys)]
+            elif r < 0.38:
+                G.nodes[k]['ez_isomer_atoms'] = rng.choice(keys)
+            elif r < 0.41:
+                G.nodes[k]['ez_isomer_atoms'] = (rng.choice(keys), 99)
+        return {'kind': 'sort', 'g': RS.enc_graph(G, skip=())}
 
     # ------------------------------------------------------------------------------------------ experiments
     def prefetch_hash(self, dets):
@@ -229,6 +258,19 @@ class C12(RS.StepProp):
             got = re.findall(BLOCK_RE, case['s'])
             term = 'C12Check.CBlocks %s %s' % (lit.s(case['s']), lit.lst([lit.s(x) for x in got]))
             return {'blocks': got, '_k': self.put_term([], term)}
+        if case['kind'] == 'sort':
+            from cgsmiles.graph_utils import sort_nodes_by_attr
+            tab = self.new_tab()
+            G = RS.dec_graph(case['g'])
+            try:
+                H = sort_nodes_by_attr(G, sort_attr="fragid")
+                impl = {'sorted': RS.enc_graph(H, skip=())}
+                term = 'C12Check.CSort %s (Some %s)' % (tab.graph(case['g']), tab.graph(impl['sorted']))
+            except Exception as exc:       # noqa: BLE001
+                impl = {'exc': type(exc).__name__}
+                term = 'C12Check.CSort %s None' % tab.graph(case['g'])
+            impl['_k'] = self.put_term([tab], term)
+            return impl
         if case['kind'] == 'det':
             impl = self.run_det(case)
             ok = impl.get('ok', True)
@@ -261,6 +303,8 @@ class C12(RS.StepProp):
     def case_class(self, case, impl):
         if case['kind'] == 'blocks':
             return 'findall:%d' % len(impl['blocks'])
+        if case['kind'] == 'sort':
+            return 'sort-direct:' + ('raised:' + impl['exc'] if 'exc' in impl else 'ok')
         if 'skip' in impl:
             return 'skipped:' + str(impl['skip'])[:30]
         if case['kind'] == 'det':
